@@ -574,22 +574,48 @@ PROPS["C13"] = dict(
          "(schema, stream) pairs and 400 (thorough 4000) generated streams of one random schema, reader failing after every k with a "
          "random kind / chunking / Interrupted pattern, whole next()/byte_offset() histories of the failing run and of the same bytes "
          "with a clean end, compared with Model.StreamTyped in fault mode); io::Error::from(serde_json::Error) on an error of every category (op ioconv; the category -> ErrorKind table is regenerated from error.rs: c13_into_io_error); in raw_value builds also Box<RawValue> at top level (model: Model.IoFault.rawFault) and as Vec / map elements (spec only), so that the fault arrives while the reader holds a raw buffer; "
-         "writer side: 300 (thorough 3000) serializer programs x {compact, pretty} with a writer accepting m bytes for m in "
-         "0..=len+1 (sampled for long outputs) under random short-write patterns and Interrupted, recording every buffer handed "
-         "to write_all. Non-trivial = k > 0 / m > 0; distinct = distinct lines.",
-    trusted_base=MACHINE_TB + ["serializer model Model.Ser (C03) for the writer side"],
-    assumptions=["io::Bytes retries Interrupted and yields bytes in order; Write::write_all loops over short writes and retries "
-                 "Interrupted (std) — exercised by the harness, not modelled",
+         "writer side (op wfault): 300 (thorough 3000) serializer programs x {compact, pretty} - programs whose serialisation fails by "
+         "itself (non-string / non-finite-float key) included - against a writer whose policy is a SCRIPT printed in the case line "
+         "(answer to write call j = item j: s<n> = Ok(min(n,len)), z = Ok(0), i = Err(Interrupted), e<Kind> = Err(kind); then a tail "
+         "answer for ever): for m in 0..=len+1 (sampled for long outputs) a script under which exactly m bytes are accepted in random "
+         "short writes with Interrupted answers in between and then the writer fails (one of 6 kinds, or Ok(0)) either for ever or "
+         "once (transient: an accept-everything tail, so that a serializer that went on writing would leave a non-prefix), plus 3 "
+         "random scripts per program; every buffer handed to write_all is recorded, write calls are counted, and the same script is "
+         "run against a second writer that only implements write (std's own write_all) and must behave identically. The driver runs "
+         "Model.WriteTrace.toWriterT against Model.Write.Writer.script with the same script and compares result, kind, accepted bytes, "
+         "number of write calls and handed buffers; the property itself is judged from the script alone (judgeWrite). "
+         "Non-trivial = k > 0 / non-empty script; distinct = distinct lines.",
+    trusted_base=MACHINE_TB + ["serializer model Model.Ser (C03) and the io::Write model Model.Write / Model.WriteTrace for the writer side",
+                               "std's Write::write_all as quoted in Model/Write.lean (toolchain sources); tools/extract.py gen_write "
+                               "(the scan of ser.rs behind c13_every_write_checked)"],
+    assumptions=["io::Bytes retries Interrupted and yields bytes in order (std) — exercised by the harness, not modelled",
+                 "a Display implementation handed to collect_str propagates the fmt::Error it receives from write_str (std's do; one that "
+                 "swallows it can make collect_str go on writing after a failed write, and return Ok in release builds)",
                  "typed targets are judged by the property's predicate against the same bytes followed by a clean end of input"],
     partial=["raw values under a failing reader (raw_value builds) are tied by the model Model.IoFault.rawFault and the correspondence; "
              "no theorem is stated about rawFault"],
     technique="Lean 4 theorems: a reader fault instead of end of input turns the fold's finish into Io unless a delivered byte was "
-              "already rejected (c13_read, by induction over the fold); writer prefix law over the serializer model's buffer list; "
-              "fault-injecting readers/writers against the crate",
+              "already rejected (c13_read, by induction over the fold); io::Write as a state machine with an arbitrary policy, std's "
+              "write_all loop and the serializer's run over it (Model.Write), proved for every policy by induction over the loop and "
+              "the buffer list; a static scan of ser.rs for discarded write results; fault-injecting readers/writers against the crate",
     level_text="Machine-checked: c13_read (reader failing after bs: the result is Io iff no delivered byte is rejected, else exactly the "
                "error those bytes produce from any source), c13_read_error_class (that error is Syntax-classified and positioned "
-               "within the delivered bytes; never a value, never Eof), c13_write_prefix / c13_write_is_prefix (accepted bytes are the "
-               "first m bytes of the fault-free output; failure iff m < length), c13_buffers_utf8 (for every program whose strings are UTF-8 "
+               "within the delivered bytes; never a value, never Eof); writer clause over Model.Write (an io::Write whose every write(buf) "
+               "answer - short write, Ok(0), Interrupted, error - is an arbitrary function of the call history): c13_write_all_spec (std's "
+               "write_all, for every policy: Ok iff the whole buffer was delivered; Err(e) only after a proper prefix, e being the very "
+               "error of the last call or WriteZero after Ok(0); Interrupted never surfaces, the call is repeated; no call after a fatal "
+               "answer), c13_writer_prefix (every program that serialises, either formatter, every policy: the bytes accepted are a "
+               "prefix of the fault-free output, the buffers handed over are the serializer's first j in order, no write call is made "
+               "after the first fatal answer, Ok only if everything was accepted, Io(e) with the policy's own error - kind and payload, "
+               "given back by io::Error::from: Res.intoIo / c13_into_io_error), c13_writer_ok_iff (contract-keeping writer: never a "
+               "panic, Ok IFF the whole output was accepted), c13_writer_vec (Vec<u8>: Ok, holds the concatenated buffers = the "
+               "fault-free output), c13_writer_all / c13_writer_all_vec / c13_trace_agrees (the same for EVERY program, including those "
+               "that fail by themselves after having written something - Model.WriteTrace.serT keeps those buffers: a writer fault "
+               "before the serializer's own error is reported, not masked), c13_writer_budget (a byte-budget writer realises "
+               "Model.IoFault.writeFault; c13_write_prefix / c13_write_is_prefix remain as lemmas about that definition only), "
+               "c13_every_write_checked (regenerated from ser.rs on every run: each of the 147 expressions that can reach the writer "
+               "hands its io::Result on - tri!, tail, return, ? or collect_str's storing match - and only write_all is ever called), "
+               "c13_buffers_utf8 (for every program whose strings are UTF-8 "
                "and either formatter, every buffer passed to write_all is valid UTF-8 on its own, hence so is what a writer holds after "
                "any number of whole buffers; the correspondence also checks every recorded buffer of the crate with "
                "Spec.Utf8.validUtf8), c13_typed_fault (typed deserializer of any schema over "
@@ -601,9 +627,10 @@ PROPS["C13"] = dict(
                "peek_end_of_value reports, offsets - to the run on the same bytes with a clean end, then exactly one terminal item: Io, or "
                "the clean run's own Syntax / Data error at that call with the same offset, then None forever with byte_offset() unchanged; "
                "never None before the terminal item, never a value the clean run does not yield, never an Eof-classified error). The crate is run with readers failing at every "
-               "byte and writers failing after every byte count, with chunking, short writes and Interrupted.",
-    level_note="Trusted: Lean kernel + 3 standard axioms; extract.py; harness/driver; machine and serializer models. std::io retry "
-               "loops are assumed. A genuine defect found by this check (Io error yielded twice by a stream) was repaired in /repo.",
+               "byte and scripted writers failing after every byte count, with chunking, short writes, Interrupted, Ok(0) and transient failures.",
+    level_note="Trusted: Lean kernel + 3 standard axioms; extract.py; harness/driver; machine, serializer and writer models. The reader-side "
+               "std::io retry loop (io::Bytes) is assumed; write_all is modelled from std's source and cross-checked against std's own. "
+               "A genuine defect found by this check (Io error yielded twice by a stream) was repaired in /repo.",
 )
 
 PROPS["C19"] = dict(
@@ -1474,10 +1501,13 @@ _add("C12", "partial", [
     "there; proved for Value / IgnoredAny items: c14_stream_depth_restored)",
 ])
 _add("C13", "partial", [
-    "c13_write_prefix / c13_write_is_prefix are true by definition of Model.IoFault.writeFault (= take m of the concatenated buffers): "
-    "write_all's loop, short writes, Interrupted and 'the serializer stops at the first failing write' are not modelled for io::Write "
-    "(they are for fmt::Write: c03_display_fault) - the writer clause is carried by the correspondence op wfault (every m, short-write "
-    "and Interrupted patterns, recorded buffers)",
+    "writer clause: 'the serializer performs the write_all calls of Model.Ser's buffer list in order and stops at the first failing one' "
+    "is the definition of Model.Write.Writer.runBufs, not a transcription of ser.rs with the writer threaded through (as "
+    "Model.Display.Adapter.writeBufs is for fmt::Write); it is tied to the source by the static scan c13_every_write_checked and by the "
+    "correspondence op wfault (mutations: a swallowed map_err(Error::io)?, a closing quote written after a failed fragment, write "
+    "instead of write_all - all VIOLATION with replay, docs/WRITER-NOTES.md). An endless Interrupted loop is outcome `hang` (fuel); "
+    "flush / write_vectored / write_fmt are never called by to_writer* and are not modelled; collect_str is one write_str of a "
+    "well-behaved Display (assumption)",
     "c13_read is near-definitional (runFault = feed with end-of-input replaced by Io); its content is the modelling claim that every state "
     "asks for another byte, tied by op rfault at every k",
     "the error KIND is not part of the models' Io outcome ('carrying that error's kind' is checked by the harness: IO:<kind>); "
